@@ -33,7 +33,8 @@ EnumeratorPool == {"Red", "Green", "Blue", "SILENT", "VALID", "Dog", "Cat", "Non
 HeaderPool     == {"gtsam/geometry/Point2.h", "vector", "path/to/ns1.h", "a-b c.h"}
 DefaultPool    == {"0", "-9.81", "1e-5", "\"hello, world\"", "'a'", "gtsam::Pose3()", "Foo(1, 2)", "{1, 2}",
                    "std::vector<int>()", "a + b", "ns::K::Red", "f(g(1), \"x)\")", "nullptr",
-                   "\"http://host/a\"", "\"/* no comment */\"", "'/'", "\"a;b\""}
+                   "\"http://host/a\"", "\"/* no comment */\"", "'/'", "\"a;b\"",
+                   "\"two  blanks\"", "Format(\"%d   %d\", 2)", "\",  \""}
 BasicPool      == {"void", "bool", "unsigned char", "char", "int", "size_t", "double", "float"}
 ValueBasicPool == BasicPool \ {"void"}
 BinOps         == OperatorSyms \ {"()", "[]"}
@@ -67,7 +68,8 @@ RandPlain(ctx, allowVoid) ==
   IF Exec THEN RandPlainExec(ctx, allowVoid)
   ELSE IF r <= 25 THEN Ty(<<Pick(IF allowVoid THEN BasicPool ELSE ValueBasicPool)>>, <<>>, RandConst(0), RandQual(0), TRUE)
   ELSE IF r <= 40 /\ ctx.tparams # {} THEN Ty(<<Pick(ctx.tparams)>>, <<>>, RandConst(0), RandQual(0), FALSE)
-  ELSE IF r <= 48 /\ ctx.tparams # {} THEN Ty(<<Pick(ctx.tparams), Pick(ScopedPool)>>, <<>>, RandConst(0), RandQual(0), FALSE)
+  ELSE IF r <= 48 /\ ctx.tparams # {} THEN Ty(<<Pick(ctx.tparams)>> \o (IF Pct(0) <= 30 THEN <<"Traits">> ELSE <<>>) \o <<Pick(ScopedPool)>>,
+                                               <<>>, RandConst(0), RandQual(0), FALSE)
   ELSE IF r <= 54 /\ ctx.cls # "" THEN Ty(<<"This">>, <<>>, RandConst(0), RandQual(0), FALSE)
   ELSE IF r <= 58 /\ ctx.cls # "" THEN Ty(<<"This", Pick(ScopedPool)>>, <<>>, RandConst(0), RandQual(0), FALSE)
   ELSE Ty(Pick(NsPathPool) \o <<Pick(CustomPool)>>, <<>>, RandConst(0), RandQual(0), FALSE)
